@@ -111,6 +111,26 @@ struct Tracked {
 };
 inline Tracked g_returned(4242);
 
+// a non-virtual parameter whose definition-side type is a base at a non-zero offset
+struct TagPad {
+    long pad = 1;
+};
+struct Tag {
+    int tag = 22;
+};
+struct Gadget : TagPad, Tag {
+    int g = 11;
+};
+// converts both ways with int
+struct Wide {
+    long v;
+    Wide(int x) : v(x) {
+    }
+    operator int() const {
+        return (int)v;
+    }
+};
+
 struct Seen {
     int def_case = -1;
     const void* object = nullptr;      // address of the Def sub-object received
